@@ -1,0 +1,212 @@
+//go:build verif
+
+package throttle
+
+// Exported wrappers for the C16 correspondence harness (/verif/harness/c16). Add-only, build tag
+// `verif`; nothing here changes the behaviour of the package.
+
+import (
+	"sort"
+	"time"
+
+	insaneJSON "github.com/ozontech/insane-json"
+	"github.com/prometheus/client_golang/prometheus"
+	"go.uber.org/zap"
+
+	"github.com/ozontech/file.d/cfg"
+	"github.com/ozontech/file.d/metric"
+	"github.com/ozontech/file.d/pipeline"
+)
+
+// VerifC16Limiter is the real inMemoryLimiter with an injected clock.
+type VerifC16Limiter struct {
+	l    *inMemoryLimiter
+	now  time.Time
+	root *insaneJSON.Root
+}
+
+var verifC16MetricsOnce *limitDistributionMetrics
+
+// one set of (real) distribution metrics shared by all limiters the harness builds
+func verifC16Metrics() *limitDistributionMetrics {
+	if verifC16MetricsOnce == nil {
+		p := &Plugin{}
+		p.registerMetrics(metric.NewCtl("verif", prometheus.NewRegistry(), time.Minute, 0), nil)
+		verifC16MetricsOnce = p.limitDistrMetrics
+	}
+	return verifC16MetricsOnce
+}
+
+// VerifC16NewLimiter builds the limiter exactly as limitersMap.newLimiter does for the in-memory
+// backend. shares[i] is the limit of the i-th distribution, values[i] the field values listed for
+// it, defLimit the limit of the default distribution; the distribution field is "d".
+func VerifC16NewLimiter(count int, interval time.Duration, kind string, limit, defLimit int64, shares []int64, values [][]string) *VerifC16Limiter {
+	v := &VerifC16Limiter{root: insaneJSON.Spawn()}
+	cl := &complexLimit{value: limit, kind: kind}
+	if len(shares) > 0 {
+		ld := limitDistributions{
+			field:           []string{"d"},
+			idxByKey:        map[string]int{},
+			distributions:   make([]complexDistribution, len(shares)),
+			defDistribution: complexDistribution{limit: defLimit},
+			enabled:         true,
+		}
+		for i, s := range shares {
+			ld.distributions[i] = complexDistribution{limit: s}
+			for _, val := range values[i] {
+				ld.idxByKey[val] = i
+			}
+		}
+		cl.distributions = ld
+	}
+	lc := &limiterConfig{backend: inMemoryBackend, bucketsCount: count, bucketInterval: interval}
+	v.l = newInMemoryLimiter(lc, cl, verifC16Metrics(), func() time.Time { return v.now })
+	return v
+}
+
+// IsAllowed sets the clock to nowNs and calls the real isAllowed with an event of the given raw
+// size whose field "d" is dvalue (absent when hasD is false) and the event time tsNs.
+func (v *VerifC16Limiter) IsAllowed(nowNs, tsNs int64, size int, hasD bool, dvalue string) bool {
+	v.now = time.Unix(0, nowNs)
+	_ = v.root.DecodeString("{}")
+	if hasD {
+		v.root.AddFieldNoAlloc(v.root, "d").MutateToString(dvalue)
+	}
+	ev := &pipeline.Event{Root: v.root, Size: size}
+	return v.l.isAllowed(ev, time.Unix(0, tsNs))
+}
+
+// State returns minID, maxID and a copy of every bucket (all distribution slots).
+func (v *VerifC16Limiter) State() (int, int, [][]int64) {
+	v.l.lock()
+	defer v.l.unlock()
+	var meta bucketsMeta
+	switch b := v.l.buckets.(type) {
+	case *simpleBuckets:
+		meta = b.bucketsMeta
+	case *distributedBuckets:
+		meta = b.bucketsMeta
+	}
+	n := v.l.buckets.getCount()
+	ring := make([][]int64, n)
+	for i := 0; i < n; i++ {
+		ring[i] = v.l.getBucket(i, nil)
+	}
+	return meta.minID, meta.maxID, ring
+}
+
+func (v *VerifC16Limiter) IsSimple() bool { return v.l.buckets.isSimple() }
+
+// VerifC16Shares runs the real parseLimitDistribution on ratios given in percent and returns the
+// default share followed by the listed shares, or an error text.
+func VerifC16Shares(total int64, pcts []int) ([]int64, string) {
+	c := limitDistributionCfg{Field: "d", Enabled: true}
+	for i, p := range pcts {
+		c.Ratios = append(c.Ratios, limitDistributionRatio{Ratio: float64(p) / 100, Values: []string{string(rune('A' + i))}})
+	}
+	ld, err := parseLimitDistribution(c, total)
+	if err != nil {
+		return nil, err.Error()
+	}
+	out := []int64{ld.defDistribution.limit}
+	for _, d := range ld.distributions {
+		out = append(out, d.limit)
+	}
+	return out, ""
+}
+
+// ---- plugin level: rules, throttle key, limiters map ---------------------------------------
+
+type VerifC16Rule struct {
+	Limit int64
+	Kind  string
+	Conds map[string]string
+}
+
+type VerifC16Plugin struct {
+	p    *Plugin
+	name string
+	now  time.Time
+	root *insaneJSON.Root
+}
+
+// VerifC16NewPlugin starts a real throttle Plugin (in-memory backend, time_field "time",
+// throttle_field "k") under a pipeline name of its own and injects the clock into its limiters map.
+func VerifC16NewPlugin(name string, count int, interval time.Duration, defLimit int64, defKind string, rules []VerifC16Rule) *VerifC16Plugin {
+	v := &VerifC16Plugin{name: name, root: insaneJSON.Spawn()}
+	pl, cf := factory()
+	config := cf.(*Config)
+	config.ThrottleField = "k"
+	config.DefaultLimit = defLimit
+	config.LimitKind = defKind
+	config.BucketsCount = count
+	for _, r := range rules {
+		config.Rules = append(config.Rules, RuleConfig{Limit: r.Limit, LimitKind: r.Kind, Conditions: r.Conds})
+	}
+	if err := cfg.SetDefaultValues(config); err != nil {
+		panic(err)
+	}
+	if err := cfg.Parse(config, nil); err != nil {
+		panic(err)
+	}
+	config.DefaultLimit = defLimit
+	config.LimitKind = defKind
+	config.BucketsCount = count
+	config.BucketInterval_ = interval
+	for i, r := range rules {
+		config.Rules[i].Limit = r.Limit
+		config.Rules[i].LimitKind = r.Kind
+	}
+	params := &pipeline.ActionPluginParams{
+		PluginDefaultParams: pipeline.PluginDefaultParams{
+			PipelineName:     name,
+			PipelineSettings: &pipeline.Settings{},
+			MetricCtl:        metric.NewCtl("verif", prometheus.NewRegistry(), time.Minute, 0),
+		},
+		Logger: zap.NewNop().Sugar(),
+	}
+	v.p = pl.(*Plugin)
+	v.p.Start(config, params)
+	v.p.limitersMap.setNowFn(func() time.Time { return v.now }, true)
+	return v
+}
+
+// Do sets the clock and runs the real Plugin.isAllowed on the event {"time":..,"k":..,fields..}.
+func (v *VerifC16Plugin) Do(nowNs, tsNs int64, size int, fields [][2]string) bool {
+	v.now = time.Unix(0, nowNs)
+	_ = v.root.DecodeString("{}")
+	v.root.AddFieldNoAlloc(v.root, "time").MutateToString(time.Unix(0, tsNs).UTC().Format(time.RFC3339Nano))
+	for _, f := range fields {
+		v.root.AddFieldNoAlloc(v.root, f[0]).MutateToString(f[1])
+	}
+	ev := &pipeline.Event{Root: v.root, Size: size}
+	return v.p.isAllowed(ev)
+}
+
+// Keys lists the keys of the pipeline's limiters map, sorted.
+func (v *VerifC16Plugin) Keys() []string {
+	lm := v.p.limitersMap
+	lm.mu.RLock()
+	defer lm.mu.RUnlock()
+	keys := make([]string, 0, len(lm.lims))
+	for k := range lm.lims {
+		keys = append(keys, k)
+	}
+	sort.Strings(keys)
+	return keys
+}
+
+// Stop cancels the plugin's goroutines and forgets the pipeline's limiters map.
+func (v *VerifC16Plugin) Stop() {
+	v.p.Stop()
+	limitersMu.Lock()
+	delete(limiters, v.name)
+	limitersMu.Unlock()
+}
+
+// LimitersExpMicro / WindowMicro: what Start did with limiter_expiration (the map's limitersExp, in
+// microseconds) next to the bucket window buckets_count * bucket_interval.
+func (v *VerifC16Plugin) LimitersExpMicro() int64 { return v.p.limitersMap.limitersExp }
+func (v *VerifC16Plugin) WindowMicro() int64 {
+	return int64(v.p.config.BucketsCount) * v.p.config.BucketInterval_.Microseconds()
+}
